@@ -164,6 +164,11 @@ func Generate(prop string, r *sim.Rand, tier string) *sim.Plan {
 		if r.Chance(0.35) {
 			cfg.Replicas = append(cfg.Replicas, Policy{ProofType: []string{"serial", "parallel"}[r.Intn(2)], Burst: r.Range(2, 4), Synced: r.Chance(0.3)})
 		}
+	case "C07":
+		// a second node handed the same blocks back to back: the delivery set it hands on for a block must not list a failed transaction
+		if r.Chance(0.25) {
+			cfg.Replicas = append(cfg.Replicas, Policy{ProofType: cfg.Replicas[0].ProofType, Burst: r.Range(2, 4), Synced: r.Chance(0.3)})
+		}
 	case "C02", "C04", "C05", "C06", "C16":
 		// a second node handed the same blocks back to back must not accept an IBTP the judged node refused
 		if r.Chance(0.2) {
@@ -551,7 +556,7 @@ func (g *gen) step(prop string) []CStep {
 			// node-level form of C13: the records of a user contract written, rewritten and read back across blocks,
 			// failed transactions and restarts
 			if r.Chance(0.6) {
-				return []CStep{CStep{Op: "kv", A: r.Intn(5), B: r.Intn(3), N: r.Intn(27)}}
+				return []CStep{CStep{Op: "kv", A: r.Intn(7), B: r.Intn(3), N: r.Intn(30)}}
 			}
 			if r.Chance(0.5) {
 				return []CStep{g.cut()}
@@ -561,7 +566,7 @@ func (g *gen) step(prop string) []CStep {
 		if prop == "C01" || prop == "C07" {
 			// every transaction kind the node accepts
 			if g.cfg.KV && r.Chance(0.15) {
-				return []CStep{CStep{Op: "kv", A: r.Intn(5), B: r.Intn(3), N: r.Intn(24)}}
+				return []CStep{CStep{Op: "kv", A: r.Intn(7), B: r.Intn(3), N: r.Intn(30)}}
 			}
 			if prop == "C01" && g.cfg.RuleOps && r.Chance(0.05) {
 				return []CStep{CStep{Op: "ruleop", A: r.Intn(4), N: r.Intn(2), Act: []string{"update", "update", "update", "register", "logout"}[r.Intn(5)], V: []string{"approve", "reject"}[r.Intn(2)]}}
